@@ -515,6 +515,8 @@ def install(ex):
     A(r"^<std::io::ErrorKind as PartialEq>::(eq|ne)$", _kind_eq, "ErrorKind == / != (kind codes)")
     A(r"^std::fs::create_dir_all::<", _fs_unit("create_dir_all"), "fs::create_dir_all (recorded)")
     A(r"^std::fs::remove_file::<", _fs_unit("remove_file"), "fs::remove_file (recorded)")
+    A(r"^std::fs::remove_dir_all::<", _fs_unit("remove_dir_all"), "fs::remove_dir_all (recorded: removes a whole subtree)")
+    A(r"^std::fs::Metadata::is_dir$|^std::fs::Metadata::is_file$", lambda ex, st, args, d, f, w: VBool(ex.fresh_bool("is_dir" if f.endswith("is_dir") else "is_file")), "Metadata::is_dir / is_file (an input)")
     A(r"^std::fs::rename::<", _fs_rename, "fs::rename (recorded)")
     A(r"^std::fs::copy::<", _fs_copy, "fs::copy (recorded)")
     A(r"^std::fs::File::create::<", _file_open("create"), "File::create (recorded)")
@@ -526,6 +528,7 @@ def install(ex):
     A(r"^std::fs::File::sync_all$", _file_call("sync_all"), "File::sync_all (recorded)")
     A(r"^std::fs::File::set_len$", _file_set_len, "File::set_len (recorded)")
     A(r"^(std::ffi::)?OsStr::len$", _osstr_len, "OsStr::len of an abstract name (uninterpreted length)")
+    A(r"^(std::ffi::)?OsStr::is_empty$", lambda ex, st, args, d, f, w: VBool(simp(_osstr_len(ex, st, args, d, f, w).t == 0)), "OsStr::is_empty of an abstract name")
     A(r"^core::str::<impl str>::len$", _abs_str_len, "str::len of an abstract string (uninterpreted byte length)")
     A(r"^core::str::<impl str>::is_char_boundary$", _abs_str_boundary, "str::is_char_boundary of an abstract string (uninterpreted predicate; 0 and len are boundaries)")
     A(r"^<str as (std::ops::)?Index<(std::ops::)?RangeTo<usize>>>::index$|^core::str::traits::<impl (std::ops::)?Index<(std::ops::)?RangeTo<usize>> for str>::index$", _abs_str_index_to,
